@@ -315,7 +315,15 @@ def realproc_job(job):
         rc0, seq, err0 = cli_run(root, argv, 1, 0, threshold=10 ** 9)
         rc1, par, err1 = cli_run(root, argv, job["ncpu"], 0, threshold=1)
         agg.notes["realproc_runs"] += 2
-        if rc0 != 0 or rc1 != 0:
+        if rc0 == 0 and rc1 != 0 and not batch.os_level_failure(rc1, err1):
+            spec = {"property": PROP, "kind": "repeat", "case": cs, "grid": [[0, 1], [0, job["ncpu"]]],
+                    "thresholds": [10 ** 9, 1], "class": "parallel_differs_from_sequential", "site": "real-multiprocessing"}
+            agg.violations.append({
+                "property": PROP, "class": "parallel_differs_from_sequential", "site": "real-multiprocessing",
+                "detail": "real multiprocessing run with %d workers fails where the sequential run succeeds: %s" % (job["ncpu"], err1[-400:]),
+                "facts": {}, "spec": spec, "choices": [], "verif_seed": job["seed"], "run_index": 0,
+                "subcheck": "real-process", "event_log_sha1": "", "event_log_tail": []})
+        elif rc0 != 0 or rc1 != 0:
             # OS-level trouble (fork failure under load, time limit): no evidence either way, not a verdict
             agg.notes["realproc_could_not_run"] += 1
             agg.notes["realproc_could_not_run: rc %r/%r %s" % (rc0, rc1, (err1 or err0)[-120:].replace("\n", " "))] += 1
